@@ -89,11 +89,17 @@ fn strategy(tier: Tier, index: u64) -> BoxedStrategy<C10Case> {
         // thousands of integer keys in a one-bucket table
         return (
             proptest::sample::select(vec![Kt::U64, Kt::I64, Kt::Vu64]),
-            proptest::collection::vec(pair_strategy(), 4300..=4700),
+            proptest::collection::vec(pair_strategy(), 100..=300),
+            4300u64..=9000,
+            any::<u64>(),
         )
-            .prop_map(|(kt, ps)| {
-                let xs: Vec<u64> = ps.iter().map(|p| p.0).collect();
-                let ys: Vec<u64> = ps.iter().take(200).map(|p| p.1).collect();
+            .prop_map(|(kt, ps, n, start)| {
+                // n DISTINCT integers (an arithmetic progression with an odd stride) + boundary values
+                let stride = 0x9E37_79B9_7F4A_7C15u64;
+                let mut xs: Vec<u64> = (0..n).map(|i| start.wrapping_add(i.wrapping_mul(stride))).collect();
+                xs.extend(ps.iter().map(|p| p.0));
+                let mut ys: Vec<u64> = ps.iter().map(|p| p.1).collect();
+                ys.extend(xs.iter().take(50).copied());
                 C10Case::Map { kt, buckets: Buckets::BucketsSize(1), xs, ys }
             })
             .boxed();
